@@ -156,3 +156,43 @@ void h_service_req (void)
 	CANARY ("service_req");
 }
 #endif
+
+/* ------------------------------------------------------------------ CHN_NOTIFY_REQ and the token */
+#ifdef NOTIFY_HARNESS
+#ifdef VERIF_CBMC
+/* external functions of this path: no effect on the client list (assumed); natively the real ones are linked */
+unsigned int alarm (unsigned int seconds) { return 0; }
+time_t time (time_t *t) { time_t nondet_time (void); time_t r = nondet_time (); __CPROVER_assume (r >= 0 && r < ((time_t) 1 << 40)); if (t) *t = r; return r; }
+void vbi_proxy_msg_write (VBIPROXY_MSG_STATE *p_io, VBIPROXY_MSG_TYPE type, uint32_t msgLen, VBIPROXY_MSG *pMsg, vbi_bool freeBuf) { }
+#endif
+struct in_nt { int tstate[2]; VBIPROXY_CHN_NOTIFY_REQ body; };
+
+void h_notify_token (void)
+{
+	DECL_INPUTS (in_nt, in);
+	static PROXY_CLNT c[2];
+	int i;
+
+	for (i = 0; i < 2; ++i) {
+		ASSUME (in.tstate[i] >= REQ_TOKEN_NONE && in.tstate[i] <= REQ_TOKEN_RETURNED);
+		c[i].dev_idx = 0; c[i].state = REQ_STATE_FORWARD; c[i].chn_state.token_state = in.tstate[i];
+		c[i].p_next = (i == 0) ? &c[1] : NULL; c[i].p_sliced = NULL; c[i].chn_prio = VBI_CHN_PRIO_BACKGROUND;
+		c[i].chn_profile.is_valid = FALSE;
+	}
+	proxy.p_clnts = &c[0]; proxy.dev_count = 1; proxy.dev[0].p_capture = NULL; proxy.dev[0].chn_prio = VBI_CHN_PRIO_BACKGROUND;
+	/* invariant: at most one client is not in state NONE */
+	ASSUME (holders (c, 0) <= 1);
+	c[0].msg_buf.head.type = MSG_TYPE_CHN_NOTIFY_REQ;
+	c[0].msg_buf.head.len = sizeof (VBIPROXY_MSG_HEADER) + sizeof (c[0].msg_buf.body.chn_notify_req);
+	c[0].msg_buf.body.chn_notify_req = in.body;
+	/* the token related flags only; norm change and flush reach the capture device */
+	ASSUME ((in.body.notify_flags & ~(VBI_PROXY_CHN_TOKEN | VBI_PROXY_CHN_RELEASE)) == 0);
+	(void) vbi_proxyd_take_message (&c[0], &c[0].msg_buf);
+	OBL (holders (c, 0) <= 1, "ntf.a channel notification never creates a second token holder");
+	if (in.tstate[0] == REQ_TOKEN_NONE)
+		OBL (c[0].chn_state.token_state == REQ_TOKEN_NONE || in.tstate[1] == REQ_TOKEN_NONE
+		     || in.tstate[1] == REQ_TOKEN_GRANT || in.tstate[1] == REQ_TOKEN_RETURNED,
+		     "ntf.a client that does not hold the token cannot 'return' it");
+	CANARY ("notify");
+}
+#endif
